@@ -300,6 +300,182 @@ example : encodeInitialUVLC 7 9 = (0x1000, 16) ∧ uvlcMode true 7 9 = 256 ∧ d
     encodeInitialUVLC 5 1 = (0, 9) ∧ uvlcMode true 5 1 = 192 ∧ encodeNonInitialUVLC 32 0 = (0xD8, 8) ∧
     uvlcTbl0 64 = 5803 ∧ uvlcTbl1 255 = 9218 := by decide
 
+/-! ## HT packet header: empty-band signalling (seeded change C06-m2 lands here) -/
+
+/-- (24) what `encodeHTJ2KPacketHeader` writes, for ANY sequence of bands (absent / code-blocks but none coded / coded):
+    `0` when no band is coded; otherwise `1`, then in band order nothing for an absent band, ONE `0` for each band with
+    code-blocks but none coded — also for those before the first coded band (`for range skippedBands`) — and the band's
+    own bits for a coded band. Tied to the real writer by op `htj2k-pkthdr` (all 26 kind patterns × 3 body variants). -/
+theorem ht_header_bits (bands : List HtBand) :
+    encodeHtBands bands = if bands.any HtBand.isCoded then true :: bandsBits bands else [false] :=
+  encodeHtBands_eq bands
+
+/-- (25) round trip with the decoder's reading (`parsePacketHeaderMulti`: packet bit, then per band with code-blocks the
+    root of a fresh inclusion tag tree — `0` = nothing of the band included, no further bits for it), for any pattern
+    of empty bands, given only that a coded band starts with its root bit `1` and that the rest of its bits is
+    self-delimiting for the band parser (`HtBand.WellFormed`): every band is classified correctly, every coded band's
+    bits are handed to the band parser at the right offset, and exactly the header's bits are consumed. -/
+theorem ht_header_bands_roundtrip {α : Type} (parseTail : List Bool → Option (α × List Bool)) (info : List Bool → α)
+    (bands : List HtBand) (hwf : ∀ b ∈ bands, b.WellFormed parseTail info) (rest : List Bool) :
+    decodeHtBands parseTail (bands.map HtBand.present) (encodeHtBands bands ++ rest) =
+      some (bands.map (HtBand.result info), rest) :=
+  ht_bands_roundtrip' parseTail info bands hwf rest
+
+/-- the checkerboard case (HL, LH empty, HH coded): two `0` bits between the packet bit and HH's bits; with a single `0`
+    (the seeded variant) the decoder would take HH's root bit `1` for LH's and mis-assign the band -/
+example : encodeHtBands [.empty, .empty, .coded [true, true, false]] = [true, false, false, true, true, false] ∧
+    encodeHtBands [.empty, .absent, .empty] = [false] ∧
+    encodeHtBands [.coded [true], .empty, .coded [true, false]] = [true, true, false, true, false] ∧
+    decodeHtBands (fun s => some (s.take 2, s.drop 2)) [true, true, true] [true, false, false, true, true, false, true] =
+      some ([some none, some none, some (some [true, false])], [true]) := by decide
+
+/-! ## U_q, missing MSBs and Kmax (seeded change C06-m1 lands here) -/
+
+/-- (26) the exponent the cleanup encoder computes for a significant coefficient (`prepareOJPHSample`:
+    `bits.Len32(((t+t)>>p &^ 1) - 1)` on the sign-magnitude word, `p = 31 - Kmax`) is the bit length of `2|v|-1`:
+    between 1 and Kmax+1 for every admissible coefficient, 0 for 0 -/
+theorem sample_exponent_range (kmax : Nat) (hk : 1 ≤ kmax ∧ kmax ≤ 30) (v : Int) (hv : v.natAbs < 2 ^ kmax) :
+    sampleVal kmax (toSignMag kmax v) = 2 * v.natAbs ∧
+    sampleEQ kmax (toSignMag kmax v) ≤ kmax + 1 ∧ (v ≠ 0 → 1 ≤ sampleEQ kmax (toSignMag kmax v)) ∧
+    (v = 0 → sampleEQ kmax (toSignMag kmax v) = 0) :=
+  ⟨sampleVal_signMag kmax hk v hv, sampleEQ_range kmax hk v hv⟩
+
+/-- (27) FIRST row pair: the U_q the encoder signals (`uq = max(eQMax, 1)`, eQMax the largest exponent of the quad) lies in
+    `1 .. missingMSBs+2` (missingMSBs = Kmax-1), so the decoder's check `uq > mmsbp2` accepts it … -/
+theorem uq_initial_accepted (kmax : Nat) (hk : 1 ≤ kmax ∧ kmax ≤ 30) (v0 v1 v2 v3 : Int)
+    (h0 : v0.natAbs < 2 ^ kmax) (h1 : v1.natAbs < 2 ^ kmax) (h2 : v2.natAbs < 2 ^ kmax) (h3 : v3.natAbs < 2 ^ kmax) :
+    let uq := uqInitial (max (max (sampleEQ kmax (toSignMag kmax v0)) (sampleEQ kmax (toSignMag kmax v1)))
+      (max (sampleEQ kmax (toSignMag kmax v2)) (sampleEQ kmax (toSignMag kmax v3))))
+    1 ≤ uq ∧ uq ≤ (kmax - 1) + 2 ∧ uqAccepted uq (kmax - 1) = true := by
+  have a0 := (sampleEQ_range kmax hk v0 h0).1
+  have a1 := (sampleEQ_range kmax hk v1 h1).1
+  have a2 := (sampleEQ_range kmax hk v2 h2).1
+  have a3 := (sampleEQ_range kmax hk v3 h3).1
+  generalize sampleEQ kmax (toSignMag kmax v0) = e0 at a0
+  generalize sampleEQ kmax (toSignMag kmax v1) = e1 at a1
+  generalize sampleEQ kmax (toSignMag kmax v2) = e2 at a2
+  generalize sampleEQ kmax (toSignMag kmax v3) = e3 at a3
+  intro uq
+  have hu : uq = max (max (max e0 e1) (max e2 e3)) 1 := rfl
+  refine ⟨by omega, by omega, ?_⟩
+  simp only [uqAccepted, Bool.not_eq_true', decide_eq_false_iff_not]
+  omega
+
+/-- (28) … and the accepted range is EXACT: every `uq` in `1 .. missingMSBs+2` is signalled by some admissible quad
+    (Kmax ≥ 2), in particular `uq = missingMSBs+2` by any |v| > 2^(Kmax-1); the check accepts `uq` iff `uq ≤ missingMSBs+2`.
+    A one-sided tightening (`>=`) rejects blocks the encoder produces. -/
+theorem uq_accepted_range_exact (kmax : Nat) (hk : 2 ≤ kmax ∧ kmax ≤ 30) :
+    (∀ uq : Nat, uqAccepted uq (kmax - 1) = true ↔ uq ≤ (kmax - 1) + 2) ∧
+    (∀ uq : Nat, 1 ≤ uq → uq ≤ (kmax - 1) + 2 →
+      ∃ v : Int, v.natAbs < 2 ^ kmax ∧ uqInitial (sampleEQ kmax (toSignMag kmax v)) = uq) := by
+  constructor
+  · intro uq
+    simp only [uqAccepted, Bool.not_eq_true', decide_eq_false_iff_not]
+    omega
+  · intro uq h1 h2
+    obtain ⟨v, hv, he⟩ := sampleEQ_onto kmax uq hk ⟨h1, by omega⟩
+    exact ⟨v, hv, by rw [he]; unfold uqInitial; omega⟩
+
+/-- (29) LATER row pairs: `U_q = max(eQMax, kappa)`, `kappa = max(1, maxE)` for quads with ≥ 2 significant samples, `maxE` one
+    less than the larger exponent of the two samples above — again in `1 .. missingMSBs+2`, accepted by the same check
+    in the second loop of `decodeOJPHScratchMagSgn`; with a single significant sample it equals the first-row value,
+    so the range is exact here too -/
+theorem uq_later_accepted (kmax eQMax e0 e1 : Nat) (two : Bool) (hk : 1 ≤ kmax)
+    (hq : eQMax ≤ kmax + 1) (h0 : e0 ≤ kmax + 1) (h1 : e1 ≤ kmax + 1) :
+    1 ≤ uqLater eQMax two e0 e1 ∧ uqLater eQMax two e0 e1 ≤ ((kmax - 1 : Nat) : Int) + 2 ∧
+    uqAccepted (uqLater eQMax two e0 e1) (kmax - 1) = true ∧
+    (1 ≤ eQMax → uqLater eQMax false e0 e1 = uqInitial eQMax) := by
+  have h := uqLater_range kmax eQMax e0 e1 two hq h0 h1
+  refine ⟨h.1, by omega, ?_, ?_⟩
+  · simp only [uqAccepted, Bool.not_eq_true', decide_eq_false_iff_not]; omega
+  · intro h1; unfold uqLater uqInitial; simp; omega
+
+example : sampleEQ 8 (toSignMag 8 129) = 9 ∧ uqInitial 9 = (8 - 1) + 2 ∧ uqAccepted 9 7 = true ∧ uqAccepted 10 7 = false ∧
+    sampleEQ 8 (toSignMag 8 128) = 8 ∧ sampleEQ 8 (toSignMag 8 (-1)) = 1 ∧ uqLater 3 true 9 2 = 8 := by decide
+
+/-! ## MagSgn bit packing -/
+
+/-- (30) MagSgn stream round trip: for every sequence of codewords `(cwd, len)`, `len ≥ 1`, written by
+    `ojphMSWriter.encode` (LSB first, a byte that follows 0xFF carries 7 bits) and closed by `terminate` (open byte
+    filled with 1s; an all-ones last byte dropped), `MagSgnDecoder.readBits` with the same lengths returns exactly
+    `cwd mod 2^len` each — the dropped / missing tail is regenerated by the decoder's 0xFF feeding -/
+theorem magsgn_roundtrip (ws : List (Nat × Nat)) (hpos : ∀ w ∈ ws, 1 ≤ w.2) :
+    MsReader.readAll { rest := ((({} : MsWriter).encodeAll ws).terminate) } (ws.map (·.2)) =
+      ws.map (fun w => w.1 % 2 ^ w.2) := magsgn_roundtrip' ws hpos
+
+/-- (31) the MagSgn bytes obey the stuffing rule (no byte ≥ 0x80 after 0xFF) and are bytes -/
+theorem magsgn_stuffed (ws : List (Nat × Nat)) :
+    Stuffed false (({} : MsWriter).encodeAll ws).buf ∧ ∀ x ∈ (({} : MsWriter).encodeAll ws).buf, x < 256 := by
+  have h := (msw_all ws {} ⟨by decide, by decide, by decide, trivial, by simp⟩).1
+  exact ⟨h.stuffed, h.bytes⟩
+
+example : (({} : MsWriter).encodeAll [(0xFF, 8), (0x7F, 7), (5, 3), (1, 1)]).terminate = [0xFF, 0x7F, 0xFD] ∧
+    MsReader.readAll { rest := [0xFF, 0x7F, 0xFD] } [8, 7, 3, 1] = [0xFF, 0x7F, 5, 1] ∧
+    (({} : MsWriter).encodeAll [(0xFF, 8)]).terminate = [] ∧ MsReader.readAll { rest := [] } [8] = [0xFF] := by decide
+
+/-! ## MEL/VLC termination: the fusion byte, and Scup -/
+
+/-- (32) `terminateOJPHMELVLC` shares one byte between the MEL tail (top bits) and the VLC tail (bottom bits) only when
+    the shared byte agrees with the MEL register on every MEL bit and with the VLC register on every VLC bit
+    (and is not 0xFF): neither reader sees a changed bit -/
+theorem fusion_byte_lossless (melTmp vlcTmp melMask vlcMask : Nat)
+    (h : (((melTmp ||| vlcTmp) ^^^ melTmp) &&& melMask) ||| (((melTmp ||| vlcTmp) ^^^ vlcTmp) &&& vlcMask) = 0) :
+    (melTmp ||| vlcTmp) &&& melMask = melTmp &&& melMask ∧ (melTmp ||| vlcTmp) &&& vlcMask = vlcTmp &&& vlcMask :=
+  fusion_condition melTmp vlcTmp melMask vlcMask h
+
+/-- (33) Scup = MEL bytes + VLC bytes is at least 2 in all three exits of `terminateOJPHMELVLC` (the VLC writer starts
+    with the locator byte 0xFF and 4 used bits; `usedBits = 0` only right after it appended a byte), so the locator
+    written by `writeScupLocator` always lands inside the suffix and `parseStandardSegments` accepts it
+    (`scup_roundtrip`, `scup_split_exact`) as long as the suffix is shorter than 4080 bytes -/
+theorem scup_consistent (pk : MelPacker) (vlcBuf : List Nat) (vlcTmp vlcUsed : Nat)
+    (hbuf : 1 ≤ vlcBuf.length) (hinv : vlcUsed = 0 → 2 ≤ vlcBuf.length) (hu : vlcUsed ≤ 8)
+    (msLen : Nat) (hlt : scupOf (terminateMelVlc pk vlcBuf vlcTmp vlcUsed) ≤ 4079) :
+    let scup := scupOf (terminateMelVlc pk vlcBuf vlcTmp vlcUsed)
+    2 ≤ scup ∧ scupSplit (msLen + scup) scup = some (msLen, scup) := by
+  intro scup
+  have h2 : 2 ≤ scup := scup_at_least_two pk vlcBuf vlcTmp vlcUsed hbuf hinv hu
+  refine ⟨h2, ?_⟩
+  unfold scupSplit
+  have : ¬ (msLen + scup < 2 ∨ scup < 2 ∨ scup > msLen + scup ∨ scup > 4079) := by
+    show ¬ (msLen + scup < 2 ∨ scup < 2 ∨ scup > msLen + scup ∨ scup > 4079)
+    omega
+  simp [this]
+
+example : terminateMelVlc { buf := [0x12], tmp := 0b101, remainingBits := 5 } [0xFF, 0x34] 0b00010 2 = ([0x12, 0xA2], [0xFF, 0x34]) ∧
+    terminateMelVlc { buf := [0x12], tmp := 0b101, remainingBits := 5 } [0xFF, 0x34] 0b10000010 8 = ([0x12, 0xA0], [0xFF, 0x34, 0x82]) ∧
+    terminateMelVlc { buf := [0x12], tmp := 0b101, remainingBits := 5 } [0xFF] 0b0010 4 = ([0x12, 0xA0], [0xFF, 0x02]) := by
+  decide
+
+/-! ## Kmax for the second decomposition (part of the gain hypothesis discharged) -/
+
+/-- (34) two decomposition levels, bands HL and LH of the second decomposition (resolution 1), PROVED from the lifting
+    formulas by interval composition (gains 9/4 · 3/2 · 2 = 27/4 < 8 = 2^X): LL1 values lie in `inLL1`, the first pass of
+    the second decomposition maps them into `inLow2a` / `inHigh2a`, and the second pass of the other kind stays strictly
+    inside `(-8M, 8M)` with `8M = 2^Kmax` (M = 2^(precision-1) ≥ 8). For LL2 and HH2 the per-level interval bound
+    (gains 81/16 > 4 and 9 > 8) is too weak; there `kmax_sufficient_of_gain` with its hypothesis remains. -/
+theorem kmax_level2_hl_lh_sufficient (bd : Nat) (rct : Bool) (hbd : 4 ≤ bd) (M : Int) (hM : M = 2 ^ (bd + rct.toNat - 1)) :
+    (∀ a b c d e, inLow1 M a → inLow1 M b → inLow1 M c → inLow1 M d → inLow1 M e →
+      inLL1 M (lift53Low (lift53High a b c) c (lift53High c d e))) ∧
+    (∀ a b c d e, inLL1 M a → inLL1 M b → inLL1 M c → inLL1 M d → inLL1 M e →
+      inLow2a M (lift53Low (lift53High a b c) c (lift53High c d e))) ∧
+    (∀ a b c, inLL1 M a → inLL1 M b → inLL1 M c → inHigh2a M (lift53High a b c)) ∧
+    (∀ band, band = 1 ∨ band = 2 →
+      let K : Int := ((2 ^ (encBandNumbps 2 bd rct 1 band).toNat : Nat) : Int)
+      (∀ a b c, inLow2a M a → inLow2a M b → inLow2a M c → -K < lift53High a b c ∧ lift53High a b c < K) ∧
+      (∀ a b c d e, inHigh2a M a → inHigh2a M b → inHigh2a M c → inHigh2a M d → inHigh2a M e →
+        -K < lift53Low (lift53High a b c) c (lift53High c d e) ∧ lift53Low (lift53High a b c) c (lift53High c d e) < K)) := by
+  have hM8 : 8 ≤ M := by
+    rw [hM]
+    have h : (2 : Int) ^ 3 ≤ 2 ^ (bd + rct.toNat - 1) := two_pow_le_int 3 _ (by omega)
+    have : (2 : Int) ^ 3 = 8 := by decide
+    omega
+  refine ⟨fun a b c d e => pass2_LL_interval M a b c d e, fun a b c d e => lvl2_pass1_low M a b c d e,
+    fun a b c => lvl2_pass1_high M a b c, ?_⟩
+  intro band hband
+  have hK := kmax_level2_hl_lh bd rct band (by omega) hband
+  simp only [hK, ← hM]
+  exact ⟨fun a b c => lvl2_highOfLow M a b c hM8, fun a b c d e => lvl2_lowOfHigh M a b c d e hM8⟩
+
 /-! ## Tile-parts: Psot / TPsot / TNsot / TLM (shared with C16) -/
 
 /-- (20) the Psot values `writeHTJ2KTileParts` writes add up to the bytes it emits (one tile-part per resolution:
